@@ -52,13 +52,14 @@ def spec(name, mode="min", dom=None, **over):
 class Instance:
     """A DCOP built from a spec with symbolic (or replayed concrete) cost tables."""
 
-    def __init__(self, eng, sp, lo=-BIG, hi=BIG, entry_kinds=None, hard_value=None):
+    def __init__(self, eng, sp, lo=-BIG, hi=BIG, entry_kinds=None, hard_value=None, kind_filter=None):
         from pydcop.dcop.dcop import DCOP
         from pydcop.dcop.objects import Domain, Variable, VariableWithCostDict
         from pydcop.dcop.relations import NAryMatrixRelation
 
         self.eng = eng
         self.spec = sp
+        self.kind_filter = kind_filter
         self.mode = sp["mode"]
         kind = sp.get("domain_kind", "int")
         self.domains = {}
@@ -97,7 +98,7 @@ class Instance:
             self.dcop.add_constraint(rel)
 
     def _entry(self, name, lo, hi, kinds, hard_value):
-        if kinds:
+        if kinds and (self.kind_filter is None or self.kind_filter(name)):
             k = self.eng.pick(kinds, "kind_" + name)
             if k == "inf":
                 return float("inf")
